@@ -109,9 +109,25 @@ def build_circuit_grown(spec):
     return c, objs
 
 
+_V0_LAST = {}
+_DET_HOOK = None  # when a dict: compile_traced counts the deterministic-branch measurements of forced stabilizer runs into it
+
+
 def initial_state(init, n, backend):
     """(QuantumState for `backend`, textbook vector).  init = {"word": [...]} stabilizer state word|0..0>
     or {"haar": seed} (dm only): a generic pure state"""
+    if "tableau" in init:  # an explicit Clifford tableau [table (2n x 2n), phase (2n)]: any generating set, any destabilizers, signs
+        table = np.array(init["tableau"][0], dtype=int)
+        phase = np.array(init["tableau"][1], dtype=int)
+        if _V0_LAST.get("id") is init:  # same input object as in the previous call: the oracle vector is the same
+            v0 = _V0_LAST["v0"]
+        else:
+            v0 = R.stabilizer_state(table[n:, :n], table[n:, n:], phase[n:])
+            assert v0 is not None and R.clifford_valid(table, n), "harness: the initial tableau is not a valid stabilizer tableau"
+            _V0_LAST.update(id=init, v0=v0)
+        if backend == "stabilizer":
+            return QuantumState(CliffordTableau(table, phase), rep_type="s"), v0
+        return QuantumState(R.dm(v0), rep_type="dm"), v0
     if "word" in init:
         word = [tuple(g) for g in init["word"]]
         v0 = RC.word_state(n, word)
@@ -144,7 +160,15 @@ def compile_traced(circuit, backend, mode, seed=None, init_state=None, comp=None
     comp.__dict__["_vf_real_one_gate"] = real
 
     def monitored(state, op, n_quantum, q_index, classical_registers):
+        info = None
+        if _DET_HOOK is not None and backend == "stabilizer" and mode in (0, 1) and hasattr(op, "c_register"):
+            t = state.rep_data.data
+            info = det_rows(t.table, t.phase, _measured_qubit(op, circuit.n_photons), n_quantum)
         r = real(state, op, n_quantum, q_index, classical_registers)
+        if info is not None:
+            _DET_HOOK["det"] += 1
+            _DET_HOOK["k3"] += int(info[0] >= 3)
+            _DET_HOOK["phase_matters"] += int(info[0] >= 2 and int(classical_registers[op.c_register]) != info[1])
         snap = snapshot(state.rep_data) if hasattr(op, "c_register") else None
         trace.append((op, np.array(classical_registers, dtype=float).copy(), snap))
         return r
@@ -799,6 +823,246 @@ def domain_six_seven(tier, seed):
     return out, N
 
 
+# ------------------------------------------------------------------ measurements whose outcome is determined by a PRODUCT of generators
+def det_rows(table, phase, q, n):
+    """reading of a tableau right before a Z measurement of qubit q (own code, textbook Aaronson-Gottesman): None if some
+    stabilizer row has X on q (random outcome); else (k, parity) with k = number of stabilizer rows whose product is +-Z_q
+    (the rows paired with the destabilizers that have X on q) and parity = XOR of their sign bits (what the outcome would be
+    if multiplying Paulis produced no phase of its own)"""
+    table = np.asarray(table)
+    if np.any(table[n:, q]):
+        return None
+    rows = [i for i in range(n) if table[i, q]]
+    return len(rows), int(np.sum(np.asarray(phase)[[i + n for i in rows]]) % 2)
+
+
+def _measured_qubit(op, n_photon):
+    typ, reg = (op.control_type, op.control) if hasattr(op, "control") else (op.reg_type, op.register)
+    return reg if typ == "p" else n_photon + reg
+
+
+def det_case(inp):
+    """the contract of run_case (state after every measuring op and at the end, record, order; modes 0, 1, 'probabilistic') on the
+    stabilizer backend, and on the density-matrix backend for the inputs marked "dm" """
+    bad = _first_bad(run_case(inp, "stabilizer"))
+    if bad:
+        return "[stabilizer] " + bad
+    if inp.get("dm"):
+        bad = _first_bad(run_case(inp, "dm"))
+        if bad:
+            return "[dm] " + bad
+    return None
+
+
+def _det_worker(inp):
+    """det_case + statistics of the forced-0 and forced-1 stabilizer compilations it made: how many measurements took the
+    deterministic branch, how many of them with >= 3 contributing generators, and in how many the outcome differs from the XOR
+    of the contributing sign bits (i.e. the phase of the Pauli product matters)"""
+    global _DET_HOOK
+    _DET_HOOK = {"det": 0, "k3": 0, "phase_matters": 0}
+    try:
+        try:
+            res = det_case(inp)
+        except Exception as e:  # noqa: BLE001 - an escaping exception is a failure of the case
+            import traceback
+            res = f"EXC {type(e).__name__}: {e} | {traceback.format_exc(limit=6)[-900:]}"
+        return {"sym": res, **_DET_HOOK}
+    finally:
+        _DET_HOOK = None
+
+
+_C_DET = ("compiling with the stabilizer backend yields exactly the textbook state and record under each measurement setting - for measurements "
+          "whose outcome is determined by the state (no randomness): the outcome is the sign of the PRODUCT of several tableau generators")
+S.item("StabilizerCompiler.compile.deterministic_measurement.scrambled_initial_state",
+       site="graphiq.backends.stabilizer.functions.clifford:z_measurement_gate (deterministic branch), linalg:row_sum, g_function (via StabilizerCompiler.compile with an initial state)",
+       bound="{N} seeded inputs: random stabilizer state on 3..5 qubits (random H/P/CNOT/CZ/CY circuit) in which 1..2 qubits are brought into a Z eigenstate "
+             "of random sign, handed over as initial state in a SCRAMBLED generating set (random products of generator pairs with their destabilizer "
+             "updates, pair swaps, destabilizer sign flips; negative signs) - kept only if, read off that tableau by own code, +-Z of the first measured "
+             "qubit is the product of >= 3 generators; program: Z-measure / measure-CNOT-reset / classical-CNOT / classical-CZ on that qubit first, then "
+             "2..6 random ops incl. a measurement of the second eigenstate qubit and a final measurement; modes 0, 1, 'probabilistic'; every 6th input also on the density-matrix backend",
+       clause=_C_DET + "; optional initial state in any generating set")(det_case)
+S.item("StabilizerCompiler.compile.deterministic_measurement.parity_checks",
+       site="graphiq.backends.stabilizer.functions.clifford:z_measurement_gate (both branches), linalg:row_sum, g_function (via StabilizerCompiler.compile)",
+       bound="{N} seeded programs from |0..0>: graph state on 3..5 qubits (H on all, CZ on random edges, optional P / P^dag on random vertices = Y-type generators), "
+             "optionally a Z-measurement of a vertex outside the check first (random outcome: rowsum multiplies generators), then a stabilizer element "
+             "g = product of K_v over a random vertex set is checked: every qubit of its support is rotated to the Z basis (H for X, P^dag then H for Y) and "
+             "either all of them are measured one after the other (Z-measure / measure-CNOT-reset / classical-CNOT/CZ: the last outcome is determined by the "
+             "others) or their parity is brought onto one of them / onto a fresh ancilla emitter by a CNOT fan-in and measured there; then 2..4 random ops "
+             "and a final measurement; modes 0, 1, 'probabilistic'; every 6th input also on the density-matrix backend",
+       clause=_C_DET)(det_case)
+
+
+def _reg_of(q, np_):
+    return ("p", q) if q < np_ else ("e", q - np_)
+
+
+def _meas_op(rng, q, n, np_, kinds=("mz", "mcr", "ccx", "ccz"), creg=0, avoid=()):
+    k = kinds[int(rng.integers(len(kinds)))]
+    t, r = _reg_of(q, np_)
+    others = [j for j in range(n) if j != q and j not in avoid]
+    if k == "mz" or not others:
+        return ["mz", t, r, creg]
+    tt, tr = _reg_of(others[int(rng.integers(len(others)))], np_)
+    return [k, t, r, tt, tr, creg]
+
+
+def _rand_unitary_op(rng, n, np_):
+    if n >= 2 and rng.random() < 0.4:
+        a, b = (int(x) for x in rng.choice(n, size=2, replace=False))
+        (ct, c), (tt, t) = _reg_of(a, np_), _reg_of(b, np_)
+        return [["cx", "cz"][int(rng.integers(2))], ct, c, tt, t]
+    t, r = _reg_of(int(rng.integers(n)), np_)
+    return ["g", ["H", "P", "PD", "X", "Y", "Z"][int(rng.integers(6))], t, r]
+
+
+def domain_det_scrambled(tier, seed):
+    """generated in 16 independent chunks (own generator each) on the worker pool"""
+    import multiprocessing as mp
+
+    N = 6000 if tier == "thorough" else 1056
+    chunks = [(seed, c, N // 16) for c in range(16)]
+    procs = int(os.environ.get("VERIF_PROCS", "16"))
+    if procs <= 1:
+        parts = [_det_scrambled_chunk(a) for a in chunks]
+    else:
+        with mp.get_context("fork").Pool(min(procs, 16)) as pool:
+            parts = pool.map(_det_scrambled_chunk, chunks, 1)
+    return [x for p in parts for x in p], 16 * (N // 16)
+
+
+def _det_scrambled_chunk(args):
+    from refsem import tabref as T
+
+    seed, chunk, N = args
+    rng = np.random.default_rng([seed, 808, chunk])
+    out = []
+    while len(out) < N:
+        n = int(rng.integers(3, 6))
+        np_ = int(rng.integers(0, n + 1))
+        t = T.RefTableau.random(n, rng, depth=3 * n + 2)
+        qs = [int(x) for x in rng.choice(n, size=int(rng.integers(1, 3)), replace=False)]
+        for q in qs:
+            t.measure(q, force=int(rng.integers(2)))
+        t.mix_presentation(rng, moves=3 * n + 3)
+        truth = t.copy().measure(qs[0], 0)[0]  # refsem's own Aaronson-Gottesman run: the outcome the state determines
+        info = det_rows(t.table(), t.R, qs[0], n)
+        for _ in range(12):  # a few more generator products, until the sign of the product is not just the XOR of the sign bits
+            if info is not None and info[0] >= 3 and info[1] != truth:
+                break
+            a, b = (int(x) for x in rng.choice(n, size=2, replace=False))
+            t._rowmul(a + n, b + n)  # s_b := s_a s_b
+            t._rowmul(b, a)          # d_a := d_b d_a   (keeps the pairing)
+            info = det_rows(t.table(), t.R, qs[0], n)
+        if info is None or info[0] < 3:
+            continue
+        ops = [_meas_op(rng, qs[0], n, np_)]
+        for _ in range(int(rng.integers(1, 3))):
+            ops.append(_rand_unitary_op(rng, n, np_))
+        if len(qs) > 1:
+            ops.append(_meas_op(rng, qs[1], n, np_))
+        for _ in range(int(rng.integers(1, 3))):
+            ops.append(_rand_unitary_op(rng, n, np_))
+        ops.append(_meas_op(rng, int(rng.integers(n)), n, np_))
+        i = chunk * N + len(out)
+        out.append({"prog": {"ne": n - np_, "np": np_, "nc": 1, "ops": ops}, "pseeds": _pseeds(seed, 7 * i, 1),
+                    "init": {"tableau": [t.table().tolist(), t.R.tolist()]}, "dm": int(i % 6 == 0)})
+    return out
+
+
+def domain_det_parity(tier, seed):
+    rng = np.random.default_rng(seed + 909)
+    N = 3000 if tier == "thorough" else 240
+    out = []
+    for i in range(N):
+        nd = int(rng.integers(3, 6))
+        anc = bool(rng.random() < 0.3)
+        n = nd + int(anc)
+        # data qubits 0..nd-1; the ancilla (if any) is the LAST emitter, i.e. qubit n-1; at least one emitter when there is an ancilla
+        np_ = int(rng.integers(0, nd + 1))
+        if anc and np_ == n:
+            np_ -= 1
+        ops = [["g", "H"] + list(_reg_of(v, np_)) for v in range(nd)]
+        edges = [(a, b) for a in range(nd) for b in range(a + 1, nd) if rng.random() < 0.6] or [(0, 1)]
+        adj = np.zeros((nd, nd), dtype=int)
+        for a, b in edges:
+            (ct, c), (tt, t) = _reg_of(a, np_), _reg_of(b, np_)
+            ops.append(["cz", ct, c, tt, t])
+            adj[a, b] = adj[b, a] = 1
+        ytype = [v for v in range(nd) if rng.random() < 0.4]  # K_v = +-Y_v Z_nb after P / P^dag on v
+        for v in ytype:
+            ops.append(["g", ["P", "PD"][int(rng.integers(2))]] + list(_reg_of(v, np_)))
+        S_ = [v for v in range(nd) if rng.random() < 0.6] or [int(rng.integers(nd))]
+        # Pauli type of g = prod_{v in S} K_v on every vertex (signs are the oracle's business): x part = [v in S], z part = parity of neighbours in S
+        xs = np.array([int(v in S_) for v in range(nd)])
+        zs = (adj @ xs) % 2
+        kind = {}
+        for v in range(nd):
+            x, z = int(xs[v]), int(zs[v])
+            if v in ytype and x:  # the X factor of K_v became Y: adds a Z component
+                z ^= 1
+            if x or z:
+                kind[v] = "Z" if not x else ("Y" if z else "X")
+        support = sorted(kind)
+        outside = [v for v in range(nd) if v not in kind]
+        if outside and rng.random() < 0.6:
+            ops.append(_meas_op(rng, outside[int(rng.integers(len(outside)))], n, np_, kinds=("mz",)))
+        for v in support:
+            if kind[v] == "X":
+                ops.append(["g", "H"] + list(_reg_of(v, np_)))
+            elif kind[v] == "Y":
+                ops.append(["w", ["H", "PD"]] + list(_reg_of(v, np_)))  # P^dag first, then H
+        mode = int(rng.integers(3)) if len(support) >= 2 else 0
+        if mode == 0:      # measure the whole support, one after the other
+            order = [support[int(j)] for j in rng.permutation(len(support))]
+            for j, v in enumerate(order):
+                ops.append(_meas_op(rng, v, n, np_, avoid=order[j + 1:]))
+        else:
+            tgt = n - 1 if (anc and mode == 2) else support[int(rng.integers(len(support)))]
+            for v in support:
+                if v != tgt:
+                    (ct, c), (tt, t) = _reg_of(v, np_), _reg_of(tgt, np_)
+                    ops.append(["cx", ct, c, tt, t])
+            ops.append(_meas_op(rng, tgt, n, np_))
+        for _ in range(int(rng.integers(2, 5))):
+            ops.append(_rand_unitary_op(rng, n, np_))
+        ops.append(_meas_op(rng, int(rng.integers(n)), n, np_))
+        out.append({"prog": {"ne": n - np_, "np": np_, "nc": 1, "ops": ops}, "pseeds": _pseeds(seed, 5 * i, 1), "dm": int(i % 6 == 0)})
+    return out, N
+
+
+def det_map(suite, name, inputs):
+    """like Suite.map, with the non-trivial count taken from the instrumented run inside the worker: an input counts as
+    non-trivial iff a measurement took the deterministic branch with >= 3 contributing generators"""
+    import multiprocessing as mp
+    from vf import bounded as vb
+
+    it = suite.items[name]
+    t0 = time.time()
+    procs = int(os.environ.get("VERIF_PROCS", "16"))
+    if len(inputs) < 32 or procs <= 1:
+        results = [_multi_call(_det_worker, i) for i in inputs]
+    else:
+        vb._WORK_FN = _det_worker
+        with mp.get_context("fork").Pool(procs) as pool:
+            results = pool.map(_multi_pool_call, inputs, max(1, len(inputs) // (procs * 8)))
+        vb._WORK_FN = None
+    it.wall_s += time.time() - t0
+    tot = {"det": 0, "k3": 0, "phase_matters": 0, "inputs_k3": 0, "inputs_phase": 0}
+    for inp, r in zip(inputs, results):
+        if isinstance(r, str):
+            suite._record(it, inp, r, False)
+            continue
+        suite._record(it, inp, r["sym"], r["k3"] > 0)
+        for k in ("det", "k3", "phase_matters"):
+            tot[k] += int(r[k])
+        tot["inputs_k3"] += r["k3"] > 0
+        tot["inputs_phase"] += r["phase_matters"] > 0
+    suite.note(f"{name}: forced-0 and forced-1 stabilizer runs of the {len(inputs)} inputs (tableau read right before every measuring op): {tot['det']} measurements took the deterministic branch, "
+               f"{tot['k3']} of them with >= 3 contributing generators ({tot['inputs_k3']} inputs), in {tot['phase_matters']} ({tot['inputs_phase']} inputs) the outcome "
+               f"differs from the XOR of the contributing sign bits (the phase of the Pauli product decides)")
+    return tot
+
+
 # ------------------------------------------------------------------ driver
 def multi_map(suite, fn, mapping, inputs, suffix="", nontrivial=None):
     """run fn (returning {key: symptom}) once per input on a fork pool and record the result under every mapped item"""
@@ -951,6 +1215,12 @@ def run(tier, seed):
     S.map("DensityMatrixCompiler.compile.forced_outcome_under_rounding", domain_float())
     S.map("reg_to_index_func.photons_first", [[a, b] for a in range(7) for b in range(7)])
     S.map("MeasurementCNOTandReset.reset_leaves_zero", domain_reset(tier, seed), nontrivial=nt)
+
+    for name, dom in (("StabilizerCompiler.compile.deterministic_measurement.scrambled_initial_state", domain_det_scrambled),
+                      ("StabilizerCompiler.compile.deterministic_measurement.parity_checks", domain_det_parity)):
+        dd, N = dom(tier, seed)
+        S.items[name].bound = S.items[name].bound.replace("{N}", str(N))
+        det_map(S, name, dd)
 
     reuse, N = domain_reuse(tier, seed)
     for b in ("stabilizer", "dm"):
